@@ -12,7 +12,7 @@ from lockrule import LockModel
 from report import Report
 import roles
 from terms import (origin, show, bool_edge, control_deps, reachable_without_edges, bool_fn_table,
-                   eval_bool_table, calls_in, leaves)
+                   eval_bool_table, calls_in, leaves, mentions)
 from c10 import classify_methods
 
 
@@ -268,33 +268,81 @@ def _check_batch(R, F, fb, validators):
              sample={"rule": "DISPATCH batch path", "variants": key, "validator": validated, "verdict": verdict, "err_assigned": err_assigned})
 
 
+def _comparator_ok(F, g):
+    """a local credential comparator is a whole-value equality only if the lengths of its two inputs are compared
+    (an `len(a) == len(b)`-shaped form somewhere in it) -- or it delegates to std equality on the whole values"""
+    from guards import edge_forms, return_form, compare_form
+    from terms import rvalue_origin
+    forms = [fm for (b, s, fm, line) in edge_forms(g)] + [fm for fm, line in return_form(g)]
+    for b in g.blocks:
+        for st in b["stmts"]:
+            if st["k"] == "assign" and st["rv"]["k"] == "bin":
+                fm = compare_form(rvalue_origin(g, st["rv"], 0, frozenset(), 30))
+                if fm is not None:
+                    forms.append(fm)
+    for fm in forms:
+        if fm.rel in ("==", "!=") and fm.lin.k == 0 and len(fm.lin.terms) == 2:
+            ts = [show(t) for t in fm.lin.terms]
+            if all("len(" in t for t in ts) and any("param:" in t for t in ts):
+                return True
+    for c in g.calls():
+        p = c.target_path or ""
+        if (p.endswith("PartialEq>::eq") or p.endswith("::eq") or p.endswith("ct_eq") or p.endswith("constant_time_eq")) and len(c.args) == 2 and not (c.res or {}).get("local"):
+            a = [show(origin(g, x)) for x in c.args]
+            if all("param:" in x for x in a) and not any("next(" in x or "[" in x for x in a):
+                return True
+    return False
+
+
 def _check_mint_guard(R, F, f, c):
-    """the minting call must be control dependent on allow_all ∨ header == expected"""
-    cd = control_deps(f)
-    deps = cd.get(c.bb, set())
-    atoms = []
-    for (a, s) in deps:
-        be = bool_edge(f, a, s)
-        if be:
-            atoms.append((show(be[0]), be[1]))
-    txt = " ; ".join("%s=%s" % a for a in atoms)
-    has_allow = any("allow_all" in a for a, t in atoms)
-    has_eq = any(("eq" in a or "Eq" in a) and "header" in a and "Authorization" in a for a, t in atoms)
-    # structural: the block must not be reachable when both edges (allow_all true, eq true) are removed
+    """the minting call must be reachable only over `allow_all == true` or `credential comparison == true`, where the
+    comparison is an equality of the *whole* provided header with the expected one"""
+    def cred_atom(t):
+        """classify a boolean term: 'allow_all' | 'eq' | 'bad-comparator:<fn>' | None"""
+        if mentions(t, "allow_all") and not mentions(t, "Authorization"):
+            return "allow_all"
+        if not (mentions(t, "Authorization") and mentions(t, "header")):
+            return None
+        # std equality on Option<&str> / &str
+        cs = calls_in(t)
+        head = cs[0] if cs else None
+        if head and (head[1].endswith("::eq") or head[1].endswith("::ne")) and not F.by_name.get(head[1]):
+            both = all(mentions(a, "self") and mentions(a, "header") or mentions(a, "Authorization") for a in head[2])
+            return "eq" if both and any(mentions(a, "self") for a in head[2]) else None
+        # a local comparator applied to (expected, provided)
+        for x in cs:
+            gs = F.by_name.get(x[1]) or []
+            if gs and len(x[2]) == 2 and any(mentions(a, "Authorization") for a in x[2]) and any(mentions(a, "self") and mentions(a, "header") for a in x[2]):
+                return "eq" if _comparator_ok(F, gs[0]) else "bad-comparator:%s" % x[1]
+        # phi of a local bool computed by a match: look through
+        return None
     true_edges = []
+    kinds = set()
+    bad = []
     for b in range(len(f.blocks)):
         for s in f.succ(b):
             be = bool_edge(f, b, s)
-            if be and be[1] is True and ("allow_all" in show(be[0]) or ("header" in show(be[0]) and "Authorization" in show(be[0]))):
-                true_edges.append((b, s))
+            if be and be[1] is True:
+                k = cred_atom(be[0])
+                if k is None and be[0][0] == "phi":
+                    # `let authorized = match .. { .. => cmp(..), _ => false }`: every non-false alternative must be a comparison
+                    alts = [x for x in be[0][1] if not (x[0] == "const" and x[1] is False)]
+                    ks = {cred_atom(x) for x in alts}
+                    if alts and len(ks) == 1:
+                        k = ks.pop()
+                if k in ("allow_all", "eq"):
+                    true_edges.append((b, s))
+                    kinds.add(k)
+                elif k and k.startswith("bad-comparator"):
+                    bad.append(k)
+    for k in sorted(set(bad)):
+        R.violation("MINT", c.where(), "MINT|comparator|%s" % k.split(":", 1)[1],
+                    "the Authorization header is compared with the expected value by %s, which is not a whole-value equality (no length "
+                    "comparison of its two inputs): a prefix or truncated header can be accepted" % k.split(":", 1)[1])
     reach = reachable_without_edges(f, true_edges)
-    R.ob(c.bb not in reach and len(true_edges) >= 2, "MINT", c.where(), "MINT|guard|%s" % f.name,
-         "Authorized is minted on a path that passes neither `allow_all` nor `Authorization header == expected` (deps: %s)" % txt,
-         sample={"rule": "MINT guard", "fn": f.name, "true_edges": len(true_edges), "control_deps": txt[:300]})
-    # the comparison must be against self.header
-    eqs = [show(bool_edge(f, b, s)[0]) for (b, s) in true_edges]
-    R.ob(any("self.header" in e for e in eqs), "MINT", c.where(), "MINT|guard-operand|%s" % f.name,
-         "header comparison does not involve self.header: %s" % eqs)
+    R.ob(c.bb not in reach and kinds == {"allow_all", "eq"}, "MINT", c.where(), "MINT|guard|%s" % f.name,
+         "Authorized is minted on a path that passes neither `allow_all` nor `Authorization header == expected` (recognised guards: %s)" % sorted(kinds),
+         sample={"rule": "MINT guard", "fn": f.name, "true_edges": len(true_edges), "guards": sorted(kinds)})
 
 
 def _check_allow(R, F):
